@@ -98,6 +98,11 @@ func init() {
 			var cs []Case
 			for i := 0; i < tierN(tier, 500, 8000); i++ {
 				s, _, how := genValidStream(r, tier)
+				if i%5 == 4 {
+					// a block (or a match, or a packed literal group) ending right where the 64 KiB output window fills
+					s, _, how = SynthBoundary(r)
+					how = "synth:" + how
+				}
 				c := Case{Prop: "C02", Stream: s, Reads: readPattern(r), Note: how, Chunks: chunkPattern(r), EOFWith: r.Bool()}
 				c.Src = r.Pick2("bytes.Reader", "plain", "bufio:4096", "bufio:65536", "bufio:64")
 				c.Ctor = r.Pick2("new", "new", "reset")
@@ -184,6 +189,10 @@ func init() {
 			var cs []Case
 			for i := 0; i < tierN(tier, 150, 2000); i++ {
 				s, _, how := genValidStream(r, tier)
+				if i%3 == 2 {
+					s, _, how = SynthBoundary(r)
+					how = "synth:" + how
+				}
 				kind := "valid"
 				nSched := 8
 				for j := 0; j < nSched; j++ {
@@ -194,6 +203,9 @@ func init() {
 						kind = "truncated"
 					}
 					c := Case{Prop: "C04", Kind: kind, Stream: st, Note: how, Chunks: chunkPattern(r), EOFWith: r.Bool(), Reads: readPattern(r), Ctor: r.Pick2("new", "reset")}
+					if j == 0 {
+						c.Chunks = []int{1} // one byte per source read: every symbol that needs more input is rolled back
+					}
 					if r.Intn(3) != 0 {
 						c.BufSize = bufSizes[r.Intn(len(bufSizes))]
 					}
